@@ -24,7 +24,7 @@ RULE = (
     "(a) all pairs of G1(4,2), G2(2,3,1), G2(2,2,2) x 27 refs, G3(2,2,2,1) x 16 refs with the full global metric set (clDice only in 2-D/3-D) x input type; all non-empty subsets of the global "
     "metrics on G1(3,2)^2 (15 subsets) and G2(2,2,1)^2 (31 subsets); (b) 14 inputs with an empty prediction, an empty reference or both (1-D/2-D/3-D) x 625 handler tuples per metric "
     "(metric m gets tuple (i+157*rank(m)) mod 625) x input type; (c) every foreground pair of G2(2,3,1)^2 x partitions {one label, one label per voxel, per-component labels, two-colouring, per-voxel labels 256*k in uint32} x "
-    "{threshold matcher, merge matcher, matched input}. non-trivial = both foregrounds non-empty and different (a, c) / handler distinguishes the three empty scenarios (b); distinct by (arrays, configuration)"
+    "{threshold matcher, merge matcher, matched input}; (d) six segment layouts of 300 and 70000 voxels (with and without any background voxel) x 1-D/2-D x uint8/16/32 x input type with global Dice, IoU, RVD (+ ASSD at 300). non-trivial = both foregrounds non-empty and different (a, c) / handler distinguishes the three empty scenarios (b); distinct by (arrays, configuration)"
 )
 ASSUMPTIONS = ["clDice: skimage skeleton trusted; compared only where defined (non-empty skeletons, non-zero sum)", "ASSD to 1e-9, others to 1e-12"]
 BUDGET = {"quick": 200, "thorough": 1500}
@@ -60,6 +60,12 @@ def blocks(tier):
     n = sc.grid_count((2, 3), 1)
     for lo, hi in sc.ranges(n, 2):
         B.append(("part", (2, 3), lo, hi))
+    # foregrounds of more voxels than an 8-bit / 16-bit counter holds, with and without background
+    from .C09 import BIG_BASES, BIG_SIZES
+
+    for size in BIG_SIZES:
+        for b in range(len(BIG_BASES)):
+            B.append(("bigvol", size, b))
     return B
 
 
@@ -95,6 +101,11 @@ def run_block(block, acc):
             for j in range(n):
                 for s in subs:
                     run_case({"kind": "all", "shape": list(shape), "k": k, "pi": i, "ri": j, "itype": "UNMATCHED" if (i + j) % 2 else "MATCHED", "subset": s}, acc)
+    elif kind == "bigvol":
+        for nd in (1, 2):
+            for dt in ("uint8", "uint16", "uint32"):
+                for itype in ("UNMATCHED", "MATCHED", "SEMANTIC"):
+                    run_case({"kind": "bigvol", "size": block[1], "b": block[2], "nd": nd, "dtype": dt, "itype": itype}, acc)
     elif kind == "empty":
         _, lo, hi = block
         for i in range(lo, hi):
@@ -190,6 +201,25 @@ def run_case(case, acc):
         ok = _judge_empty(acc, case, tag, obs, pred, ref, mets, ASYM) and ok
         acc.outcome(tuple(repr(obs[KEY[m]]) for m in GM))
         if ok:
+            acc.ok()
+    elif kind == "bigvol":
+        from .C09 import BIG_BASES, _segs_array
+
+        name, ps, rs = BIG_BASES[case["b"]]
+        pred = _segs_array(ps, case["size"], case["nd"]).astype(case["dtype"])
+        ref = _segs_array(rs, case["size"], case["nd"]).astype(case["dtype"])
+        itype = case["itype"]
+        mets = ["DSC", "IOU", "RVD"] + (["ASSD"] if case["size"] <= 300 else [])
+        acc.case("bigvol", case["size"], case["b"], case["nd"], case["dtype"], itype)
+        tag = f"{itype} globals={mets} {name}: {case['size']} voxels, {case['nd']}-D, dtype {case['dtype']}"
+        obs = _evaluate(acc, case, tag, itype, pred, ref, mets, ASYM)
+        if obs is None:
+            return
+        acc.state("bigvol", case["size"], case["b"], case["nd"], case["dtype"], itype)
+        acc.nontriv("bigvol", case["size"], case["b"], case["nd"], case["dtype"], itype)
+        exp = expected_global(pred, ref, mets)
+        acc.outcome(tuple(repr(obs[KEY[m]]) for m in GM))
+        if judge_values(acc, case, tag, obs, exp, mets):
             acc.ok()
     elif kind == "empty":
         which, p, r = EMPTY_INPUTS[case["e"]]
